@@ -394,6 +394,11 @@ func (j *judge) run() {
 	}
 	st := &mstate{}
 	success := -1
+	for i, s := range tr.steps {
+		if s.reply == rSuccess {
+			success = i
+		}
+	}
 	var lastExp expect
 	modelling := true
 	for i := 0; i < len(tr.steps) && modelling; i++ {
@@ -447,6 +452,9 @@ func (j *judge) run() {
 				switch {
 				case e.userChange:
 					j.alarmf("C33", "user-change-accepted-after-partial-success", "step %d: %s", i, s)
+					modelling = false
+				case !e.allowPartial && e.saDenied != "":
+					j.alarmf("C33", "source-address-not-enforced:"+saKey(e.saDenied)+":partial-success", "step %d: %s; remote %s %v; %s", i, s, c.remoteKind, c.remote, e.why)
 					modelling = false
 				case !e.allowPartial:
 					j.alarmf("C32", "unsound-partial-success:"+shortClass(e.class), "step %d: %s; %s", i, s, e.why)
